@@ -1849,8 +1849,12 @@ def _state_directed(rng, TG, names):
     for name in names:
         t = TG[name]
         c = dict(t['gen'](rng), t=0)
-        calls = [dict(_bad_variant(rng, c), t=0), c, json.loads(json.dumps(c))]
-        yield _mk([name], calls, _tag_calls(TG, [name], calls, ['raise_first']))
+        bad = dict(_bad_variant(rng, c), t=0)
+        if t.get('model') in ('pav', 'borda'):          # what the Lean models can be asked: empty votes (a refusal / empty result)
+            bad = dict(json.loads(json.dumps(c)), a=[{'D': []}] + c['a'][1:])
+        if t.get('model') not in ('rankval', 'scoreval'):
+            calls = [bad, c, json.loads(json.dumps(c))]
+            yield _mk([name], calls, _tag_calls(TG, [name], calls, ['raise_first']))
         withkw = None
         for _ in range(8):
             g = dict(t['gen'](rng), t=0)
